@@ -149,6 +149,38 @@ def breeze_op(rng, a, faults=None, rep=None):
 
 
 # ----------------------------------------------------------------------------------------
+def e2e_phase(ctx: Ctx, owns) -> dict:
+    """End-to-end behaviours (API object -> simulated device -> broadcast -> bridge) judged by Trace_Switcher."""
+    import random as _r
+    import warnings
+    from .. import e2edrive, tlc
+    rng = _r.Random(ctx.seed + 77)
+    scns = e2edrive.scenarios(rng, ctx.pick(160, 4000))
+    runs = []
+    with warnings.catch_warnings():
+        warnings.simplefilter("ignore")
+        for n, sc in enumerate(scns):
+            evs = e2edrive.run_scenario(sc)
+            for k, e in enumerate(evs):
+                e["tid"] = n + 1
+                e["k"] = k
+            runs.append(evs)
+    v = tlc.validate("Trace_Switcher", runs, shards=8)
+    mism = []
+    harness_trouble = [b for b in v["bad"] if any(c.startswith("harness:") for c in b["why"])]
+    if harness_trouble:
+        raise tlc.Machinery(f"the device simulator disagrees with the device model: {harness_trouble[:2]}")
+    for b in v["bad"]:
+        mine = [c for c in b["why"] if owns(c)]
+        if mine:
+            evs = runs[b["tid"] - 1]
+            mism.append({"behaviour": b["tid"], "step": b["k"], "action": b["ev"], "what": ",".join(mine), "expected": "device model (Device.tla)",
+                         "observed": {k: vv for k, vv in evs[b["k"]].items() if k != "b"}, "scenario": scns[b["tid"] - 1]})
+    return {"label": "end-to-end (API object -> simulated device -> broadcast -> bridge) judged by Trace_Switcher",
+            "gen": {"module": "Trace_Switcher", "behaviours": len(runs), "states": v["states"], "branches": v["tags"]},
+            "behaviours": len(runs), "steps": v["n_events"], "mismatches": mism}
+
+
 class ClientProp(Prop):
     trace_module = "Trace_Client"
     shards = 16
@@ -268,7 +300,15 @@ class C02(ClientProp):
     assumptions = ClientProp.base_assumptions + [
         "negative minutes, positions outside 0..100, slot ids outside 0..7, lenient clock spellings and clock times that do "
         "not exist today (DST gap) are outside the statement's domain and left open",
+        "end-to-end portion: the simulated device's semantics (Device.tla: timer when none is given = auto-shutdown, 2600 W when on) "
+        "are the model's; the simulator is validated by TLC against that model at every broadcast",
     ]
+
+    def mc_runs(self, ctx):
+        return list(MODEL_RUNS) + [{"module": "Switcher", "cfg": "Switcher.cfg"}, {"module": "Switcher", "cfg": "Switcher_Live.cfg"}]
+
+    def replay_phase(self, ctx):
+        return e2e_phase(ctx, lambda c: c.startswith("C02:"))
 
 
 class C01(ClientProp):
